@@ -208,9 +208,9 @@ LETTER_ORDER = ('bool', 'u8', 'oct', 'null', 'seq', 'cho')
 
 SEQ_OPS_FULL = (['add-M:' + l for l in LETTER_ORDER] + ['add-O:' + l for l in LETTER_ORDER]
                 + ['add-D:' + l for l in LETTER_ORDER if LETTERS[l][1] is not None]
-                + ['group:1', 'group:2', 'group:opt'])
+                + ['group:1', 'group:2', 'group:opt', 'add2:oo'])
 # reduced alphabet: every qualifier, every letter, one group -- each once
-SEQ_OPS_REDUCED = ['add-M:bool', 'add-O:oct', 'add-D:u8', 'add-M:seq', 'add-O:cho', 'add-M:null', 'group:2']
+SEQ_OPS_REDUCED = ['add-M:bool', 'add-O:oct', 'add-D:u8', 'add-M:seq', 'add-O:cho', 'add-M:null', 'group:2', 'add2:oo']
 CHO_OPS_FULL = ['alt:' + l for l in LETTER_ORDER]
 CHO_OPS_REDUCED = ['alt:bool', 'alt:oct', 'alt:seq', 'alt:null']
 ENUM_OPS = ['item:next', 'item:far']
@@ -306,6 +306,11 @@ def apply_op(node, op, gen):
     if kind in ('add-M', 'add-O', 'add-D'):
         name, = _fresh(node, gen)
         return replace(node, adds=node.adds + (_member(name, kind[-1], arg),))
+    if kind == 'add2':
+        # two OPTIONAL additions in one step: the older version then meets every presence pattern of two unknown
+        # additions (present + absent, absent + present, both) after its own last addition
+        n1, n2 = _fresh(node, gen, 2)
+        return replace(node, adds=node.adds + (M(n1, B, 'O'), M(n2, OCT, 'O')))
     if kind == 'group':
         if arg == '1':
             n1, = _fresh(node, gen)
